@@ -799,6 +799,64 @@ def bulk_oracle(case, files, src, kws):
     return np.concatenate(parts), lens
 
 
+# --------------------------------------------------------------------------
+# the clustering front-end's loader: several (topology, trajectory set, selection) groups in one call
+
+@st.composite
+def grouped_case(draw):
+    n_groups = pick(draw, [2, 3, 1, 2])
+    n_sel = spread(draw, 1, 4, 2)
+    groups = []
+    for g in range(n_groups):
+        n_atoms = spread(draw, n_sel, n_sel + 5, n_sel + 2)
+        sel = sorted(draw(st.permutations(list(range(n_atoms))))[:n_sel])
+        groups.append({"n_atoms": n_atoms, "selected": sel,
+                       "frames": [spread(draw, 1, 12, 4 + i) for i in range(pick(draw, [2, 1, 3]))]})
+    return {"groups": groups, "stride": pick(draw, [1, 2, 3, 1]), "fmt": pick(draw, ["xtc", "h5", "xtc"]),
+            "seed": draw(st.integers(0, 2 ** 31 - 1))}
+
+
+def run_grouped(case):
+    from enspara.cluster.util import load_trajectories
+    d = mktmp()
+    try:
+        rng = np.random.RandomState(case["seed"])        # seed drawn by Hypothesis
+        tops, trjsets, sels, parts, lens = [], [], [], [], []
+        for g, grp in enumerate(case["groups"]):
+            t = mdtraj.Topology()
+            c = t.add_chain()
+            r = t.add_residue("ALA", c)
+            for i in range(grp["n_atoms"]):
+                t.add_atom("CX" if i in grp["selected"] else "CY", mdtraj.element.carbon, r)
+            topf = os.path.join(d, "top%d.pdb" % g)
+            mdtraj.Trajectory(np.zeros((1, grp["n_atoms"], 3), dtype="float32"), t).save_pdb(topf)
+            files = []
+            for i, n in enumerate(grp["frames"]):
+                x = (rng.standard_normal((n, grp["n_atoms"], 3)) * 2.0).astype("float32")
+                f = os.path.join(d, "g%d_t%02d.%s" % (g, i, case["fmt"]))
+                trj = mdtraj.Trajectory(x, t)
+                trj.save_hdf5(f) if case["fmt"] == "h5" else trj.save_xtc(f)
+                files.append(f)
+                ind = mdtraj.load(f, top=mdtraj.load(topf).top, stride=case["stride"],
+                                  atom_indices=np.array(grp["selected"], dtype=int)).xyz
+                parts.append(np.ascontiguousarray(ind))
+                lens.append(ceil_div(n, case["stride"]))
+            tops.append(topf)
+            trjsets.append(files)
+            sels.append("name CX")
+        lengths, xyz, sub = load_trajectories(tops, trjsets, sels, case["stride"], 2)
+        want = np.concatenate(parts)
+        check_bulk(lengths, xyz, want, lens, "load_trajectories (groups with their own topology and selection)",
+                   groups=[(g["n_atoms"], g["selected"]) for g in case["groups"]])
+        require(sub.n_atoms == len(case["groups"][0]["selected"]), "returned topology does not have the selected atoms")
+        differing = len(set(tuple(g["selected"]) for g in case["groups"])) > 1
+        return Info(differing and len(case["groups"]) >= 2,
+                    ["grouped_groups=%d" % len(case["groups"]), "grouped_selections_differ=%s" % differing,
+                     "fmt=" + case["fmt"], "grouped_stride=%d" % case["stride"]])
+    finally:
+        shutil.rmtree(d, ignore_errors=True)
+
+
 def planned_inversion(cfg):
     dl = cfg["delays"]
     return any(dl[i] > dl[j] for i in range(len(dl)) for j in range(i + 1, len(dl)))
@@ -908,7 +966,9 @@ def npy_case(draw):
     return {"rows": [spread(draw, 1, 20, 6 + 3 * i) for i in range(n_files)], "tail": tail,
             "dtype": draw(st.sampled_from(DTYPES)), "seed": draw(st.integers(0, 2 ** 31 - 1)),
             "stride": pick(draw, [2, 1, 3, 4, 7, 1, 21]), "order": draw(st.sampled_from(["C", "C", "F", "mixed"])),
-            "launcher": draw(st.sampled_from([None, None, 2, 3, 4]))}
+            "launcher": draw(st.sampled_from([None, None, 2, 3, 4])),
+            # files written on a machine of the other byte order (np.save records it in the header)
+            "byteswapped": draw(st.sampled_from([False, False, False, True]))}
 
 
 def run_striped_npy(case):
@@ -921,13 +981,15 @@ def run_striped_npy(case):
             if case.get("order", "C") == "F" or (case.get("order") == "mixed" and i % 2):
                 x = np.asfortranarray(x)          # a column-major array on disk (np.save records fortran_order)
             f = os.path.join(d, "x%02d.npy" % i)
-            np.save(f, x)
+            np.save(f, x.astype(x.dtype.newbyteorder()) if case.get("byteswapped") else x)
             arrs.append(x)
             files.append(f)
         s = case["stride"]
         with launcher_env(case.get("launcher")):
             gl, data = ens_mpi.io.load_npy_as_striped(files, stride=s)
         want = np.concatenate([x[::s] for x in arrs])
+        if case.get("byteswapped") and isinstance(data, np.ndarray) and data.dtype.newbyteorder("=") == want.dtype:
+            data = data.astype(want.dtype)      # same element type and values, whichever byte order the result carries
         require(isinstance(data, np.ndarray) and bits(data, want),
                 "load_npy_as_striped: data differ from the concatenated strided arrays", got=describe(data),
                 want=describe(want), stride=s, rows=case["rows"])
@@ -1028,7 +1090,10 @@ CLAUSES = [
     Clause("keys_big", ragged_case(min_rows=2, big=True, with_keys=True), run_keys, quick=0, thorough=600),
     Clause("bulk_concat", bulk_case(), run_bulk_concat, quick=72, thorough=400),
     Clause("bulk_schedule", bulk_case(n_configs=2), run_bulk_schedule, quick=32, thorough=200),
-    Clause("bulk_concat_formats", bulk_case(formats=("h5", "h5", "xtc", "dcd")), run_bulk_concat, quick=0, thorough=200),
+    Clause("bulk_concat_formats", bulk_case(formats=("h5", "xtc", "dcd", "dcd")), run_bulk_concat, quick=24, thorough=200),
+    Clause("grouped_loader", grouped_case(), run_grouped, quick=48, thorough=400,
+           doc="enspara.cluster.util.load_trajectories: 1..3 groups, each with its own topology file, trajectory files and "
+               "atom selection (equal sizes, different atoms): the concatenation of the individually loaded files"),
     Clause("bulk_schedule_formats", bulk_case(formats=("h5", "h5", "h5", "xtc"), n_configs=2), run_bulk_schedule,
            quick=0, thorough=100),
     Clause("striped_npy", npy_case(), run_striped_npy, quick=80, thorough=1000),
